@@ -320,10 +320,41 @@ func runC07(c *Ctx) {
 		sw := GenScopeWS(r, ScopeCfg{})
 		c.Eval(1)
 		jsonCfg := ""
+		var ign *c07Ignore
 		if i%4 == 3 {
 			jsonCfg = "{}"
+			if r.Bool() {
+				// ignore lists: a global ignore list and per-file lists that differ from file to file
+				ign = &c07Ignore{Modules: map[string]bool{}, FileVars: map[string]map[string]bool{}}
+				never := []string{"GNever1", "GNever2"}
+				if r.Chance(1, 3) {
+					ign.Modules[r.Pick(never)] = true
+				}
+				var fv []interface{}
+				for fi, f := range sw.Files {
+					vars := []string{never[(fi+i)%2]}
+					if r.Chance(1, 4) {
+						vars = never
+					}
+					if r.Chance(1, 5) {
+						continue // a file without an entry
+					}
+					ign.FileVars[f.Rel] = map[string]bool{}
+					for _, v := range vars {
+						ign.FileVars[f.Rel][v] = true
+					}
+					fv = append(fv, map[string]interface{}{"File": f.Rel, "Vars": vars})
+				}
+				var mods []string
+				for m := range ign.Modules {
+					mods = append(mods, m)
+				}
+				jb, _ := json.Marshal(map[string]interface{}{"IgnoreModules": mods, "IgnoreFileVars": fv})
+				jsonCfg = string(jb)
+				c.Count("workspaces_with_ignore_lists", 1)
+			}
 		}
-		checkC07WS(c, sw, jsonCfg, fmt.Sprintf("c07w%d", i))
+		checkC07WSIgn(c, sw, jsonCfg, ign, fmt.Sprintf("c07w%d", i))
 		mode := "client"
 		if jsonCfg != "" {
 			mode = "json"
@@ -338,7 +369,7 @@ func runC07(c *Ctx) {
 	}
 	sort.Strings(keys)
 	c.Finish("planted cases (23 expectations x client mode, config-file mode, config-file mode with ignore lists) plus generated multi-file workspaces as in C05, every 4th in "+
-		"config-file mode; every read occurrence and every declaration is classified by R-bind into MUST / MUST-NOT / DON'T-CARE for diagnostic types 2, 3 and 4 (17 only as 'never on a read local') "+
+		"config-file mode (half of those with a global ignore list and per-file ignore lists that differ between files); every read occurrence and every declaration is classified by R-bind into MUST / MUST-NOT / DON'T-CARE for diagnostic types 2, 3 and 4 (17 only as 'never on a read local') "+
 		"and compared with the published diagnostics at exactly that identifier's range. distinct_nontrivial = distinct (file text, occurrence or declaration) with a definite expectation", 300)
 }
 
@@ -346,7 +377,19 @@ func init() {
 	wsChecks["C07"] = func(c *Ctx, sw *ScopeWS, tag string) { checkC07WS(c, sw, "", tag) }
 }
 
-func checkC07WS(c *Ctx, sw *ScopeWS, jsonCfg string, tag string) {
+// c07Ignore: names whose undefined-variable report the configuration switches off, globally and per file.
+type c07Ignore struct {
+	Modules  map[string]bool
+	FileVars map[string]map[string]bool
+}
+
+func (g *c07Ignore) ignored(rel, name string) bool {
+	return g != nil && (g.Modules[name] || g.FileVars[rel][name])
+}
+
+func checkC07WS(c *Ctx, sw *ScopeWS, jsonCfg string, tag string) { checkC07WSIgn(c, sw, jsonCfg, nil, tag) }
+
+func checkC07WSIgn(c *Ctx, sw *ScopeWS, jsonCfg string, ign *c07Ignore, tag string) {
 	view, ws, err := c07View(c, sw.FileMap(), jsonCfg, tag)
 	if err != nil {
 		c.Inconclusive("server failed on a generated workspace (C01's business): " + err.Error())
@@ -396,11 +439,24 @@ func checkC07WS(c *Ctx, sw *ScopeWS, jsonCfg string, tag string) {
 					c.Count("dont_care_idiom_context", 1)
 					continue
 				}
+				if ign.ignored(f.Rel, name) {
+					c.Count("ignored_undefined_reads_checked", 1)
+					c.Distinct(f.Text + fmt.Sprint("i", o.Tok.Off))
+					if has2 {
+						c.Report(fmt.Sprintf("ignored-name-reported|%s|%s", mode, cls),
+							fmt.Sprintf("%s at %s:%v is on an ignore list that covers this file but is reported undefined", name, f.Rel, rg.Start),
+							witness(map[string]interface{}{"name": name, "range": rg, "luahelper.json": jsonCfg}))
+					}
+					continue
+				}
 				c.Count("undefined_reads_checked", 1)
 				c.Distinct(f.Text + fmt.Sprint("u", o.Tok.Off))
+				if ign != nil {
+					c.Count("undefined_reads_checked_beside_ignore_lists", 1)
+				}
 				if !has2 {
 					c.Report(fmt.Sprintf("undefined-not-reported|%s|%s", mode, cls),
-						fmt.Sprintf("%s at %s:%v is defined nowhere but no type-2 diagnostic covers it", name, f.Rel, rg.Start), witness(map[string]interface{}{"name": name, "range": rg}))
+						fmt.Sprintf("%s at %s:%v is defined nowhere but no type-2 diagnostic covers it", name, f.Rel, rg.Start), witness(map[string]interface{}{"name": name, "range": rg, "luahelper.json": jsonCfg}))
 				}
 				continue
 			}
